@@ -59,7 +59,7 @@ CHECKS = {
    text='37 (thorough 106) keys incl. parity bits, weak/semi-weak, parity-only variants: structure of all tables, key independence, evaluation on the single-bit block family; for 2 keys x every round 1..16 blocks computed with the reference so that the internal (L,R) state is zero / all-ones / half-zero / single-bit; tables regenerated from one Bits key object overwritten in place; the round tables of one key requested in every order of two (three) rounds on a freshly loaded module.',
    note='Trusted: reference DES bound to OpenSSL.'),
  'C19': dict(sec='2/C19, 8', tech='bounded exhaustive enumeration of all 30 TLSH configurations x length x content x force, all digest pairs, complete component domains on live objects with injected state (engines P/D) against paper/reference models',
-   text='30 configurations x 12/16 lengths x 7 contents x force (None vs exact-length digest equal to the model, also on used objects); from_hash on produced / single-bit digests; all ordered digest pairs in 12 call forms (bytes, re-loaded, finalized-only and called objects) vs the model score; the length byte for every data length to 2^18 (2^21); the quartile-ratio byte for every pair q<=q3<=200 (400) with the bucket array set by hand; Nilsimsa every target and length 0..39, Hamming distances.',
+   text='30 configurations x 12/16 lengths x 7 contents x force (None vs exact-length digest equal to the model, also on used objects); from_hash on produced / single-bit digests; all ordered digest pairs in 12 call forms (bytes, re-loaded, finalized-only and called objects) vs the model score; the length byte for every data length to 2^19 (2^23); the quartile-ratio byte for every pair q<=q3<=200 (400) with the bucket array set by hand; Nilsimsa every target and length 0..39, Hamming distances.',
    note='Trusted: mc/refs/lsh.py (official vectors per run). 48 buckets with 18..24 non-empty buckets judged for type only.'),
  'C20': dict(sec='2/C20, 8', tech='complete enumeration of all small lists / multisets / item lists (engine D) against itertools and brute force; explicit-state BFS over call histories incl. caller-side mutation of arguments and results, and over two caller-held combink enumerations (engine H)',
    text='permutk on every list over {0,1,2} to length 5/6 and range(n) to 6/8; nextperm on every permutation and multiset arrangement; combink n<=6/7; exactsum/dynprog on every item list to length 5/6 over weights {1,2,3,5} x every target by brute force; all histories to depth 3/4 of 8 calls, calls on one caller-owned list overwritten in place, and scribbling on the last result, compared with brute force and with a freshly loaded module in a forked child; instances scaled by 22000 (targets beyond 2^16); zero-weight items; exactsum with a result list owned by the caller; two combink enumerations started / advanced / drained / closed / dropped in every order to depth 4/5.',
